@@ -565,6 +565,15 @@ class SimLock:
     def release(self):
         if self._s.killing:
             return
+        me = self._s.me()
+        if me is not None:
+            # as the real primitives: a plain lock may be released by any thread but not when it is free; a re-entrant one only
+            # by its owner
+            if self._re:
+                if self._owner is not me:
+                    raise RuntimeError("cannot release un-acquired lock")
+            elif self._owner is None:
+                raise RuntimeError("release unlocked lock")
         self._count -= 1
         if self._count <= 0:
             self._count = 0
